@@ -80,8 +80,14 @@ fn gen_ops(r: &mut Rng, n: usize) -> Vec<Op> {
 }
 
 fn run_ops(text: &str, sf: SourceFile, ix: LineIndex, ops: &[Op], who: usize) {
-    let bs = model::boundaries(text);
-    let rows = model::rows(text);
+    let mut bs = model::boundaries(text);
+    if text.len() > 2000 {
+        // the long-line script: only offsets far into the line are interesting (and cheap enough)
+        let n = bs.len();
+        bs = bs[n - 64..].to_vec();
+    }
+    let table = model::RowTable::new(text);
+    let rows = table.rows.clone();
     for (i, op) in ops.iter().enumerate() {
         let ctx = || format!("thread {who} op #{i} {op:?} text {text:?}");
         match *op {
@@ -94,8 +100,8 @@ fn run_ops(text: &str, sf: SourceFile, ix: LineIndex, ops: &[Op], who: usize) {
                 let o = bs[a as usize % bs.len()];
                 let sc = sf.to_source_code();
                 let loc = sc.source_location(TextSize::new(o as u32));
-                assert_eq!((loc.row.get(), loc.column.get()), model::row_col(text, o), "source_location({o}): {}", ctx());
-                assert_eq!(sc.line_index(TextSize::new(o as u32)).get(), model::row_col(text, o).0, "line_index({o}): {}", ctx());
+                assert_eq!((loc.row.get(), loc.column.get()), table.row_col(o), "source_location({o}): {}", ctx());
+                assert_eq!(sc.line_index(TextSize::new(o as u32)).get(), table.row_col(o).0, "line_index({o}): {}", ctx());
             }
             Op::Row(a) => {
                 let r = a as usize % rows.len();
@@ -140,7 +146,7 @@ fn run_ops(text: &str, sf: SourceFile, ix: LineIndex, ops: &[Op], who: usize) {
             Op::IndexQuery(a) => {
                 let o = bs[a as usize % bs.len()];
                 let loc = ix.source_location(TextSize::new(o as u32), text);
-                assert_eq!((loc.row.get(), loc.column.get()), model::row_col(text, o), "LineIndex::source_location({o}): {}", ctx());
+                assert_eq!((loc.row.get(), loc.column.get()), table.row_col(o), "LineIndex::source_location({o}): {}", ctx());
             }
         }
     }
@@ -151,8 +157,17 @@ fn main() {
     let seed: u64 = args.get(1).and_then(|s| s.parse().ok()).unwrap_or(1);
     let script: u64 = args.get(2).and_then(|s| s.parse().ok()).unwrap_or(0);
     let mut r = Rng::new(derive(seed, &[0xC15, script]));
-    let text: &'static str = TEXTS[(script as usize + r.below(2) as usize * 5) % TEXTS.len()];
-    let n_threads = 2 + (script % 3) as usize;
+    let text: Arc<str> = if script % 6 == 3 {
+        // one physical line of several KiB with non-ASCII characters at both ends, then a short line
+        format!("é{}ü{}\nz = 'ü'\n", "x".repeat(4400), "y".repeat(70)).into()
+    } else {
+        TEXTS[(script as usize + r.below(2) as usize * 5) % TEXTS.len()].into()
+    };
+    let text_owner = text.clone();
+    let text: &str = &text_owner;
+    let long_line = text.len() > 2000;
+    // the long-line script is all about many concurrent column queries far into one line
+    let n_threads = if long_line { 3 } else { 2 + (script % 3) as usize };
     let prebuilt = r.chance(1, 4);
     let ix = LineIndex::from_source_text(text);
     let sf = if prebuilt {
@@ -163,9 +178,17 @@ fn main() {
     let barrier = Arc::new(Barrier::new(n_threads));
     let mut handles = Vec::new();
     for t in 0..n_threads {
-        let n_ops = 4 + r.below(3) as usize;
-        let ops = gen_ops(&mut r, n_ops);
+        let n_ops = if long_line { 8 } else { 4 + r.below(3) as usize };
+        let mut ops = gen_ops(&mut r, n_ops);
+        if long_line {
+            for op in ops.iter_mut() {
+                if !matches!(op, Op::Query(_) | Op::IndexQuery(_)) {
+                    *op = Op::Query(r.next_u32());
+                }
+            }
+        }
         let (sf, ix, barrier) = (sf.clone(), ix.clone(), barrier.clone());
+        let text = text_owner.clone();
         let private = PRIVATE_TEXTS[r.below(PRIVATE_TEXTS.len() as u64) as usize];
         let private_first = r.chance(1, 2);
         handles.push(std::thread::spawn(move || {
@@ -173,7 +196,7 @@ fn main() {
             if private_first {
                 private_file_check(private, t);
             }
-            run_ops(text, sf, ix, &ops, t);
+            run_ops(&text, sf, ix, &ops, t);
             if !private_first {
                 private_file_check(private, t);
             }
@@ -193,5 +216,5 @@ fn main() {
         }
         run_ops(text, sf, ix, &[Op::Touch, Op::Query(3), Op::Row(1)], 99);
     }
-    println!("ok seed={seed} script={script} threads={n_threads} prebuilt={prebuilt} text={text:?}");
+    println!("ok seed={seed} script={script} threads={n_threads} prebuilt={prebuilt} text={:?}", text.chars().take(40).collect::<String>());
 }
